@@ -205,13 +205,15 @@ CLAIMED = {
        "by that mask (noise, mean, variance and target all masked alike) and under 'fill' return 0 for every missing entry and the unchanged term "
        "for every other one (also when an observation equals the fill value); ExactMarginalLogLikelihood.forward under 'mask' evaluates "
        "log_prob on (mean[obs], cov[obs, obs]) at target[obs] -- the density of the data set with the missing observations deleted -- divides "
-       "by the total number n of targets, and rejects 'fill' with ValueError. Bounded tier (not counted): every NaN pattern on n = 4 (quick) / 5 "
+       "by the total number n of targets, and rejects 'fill' with ValueError; prediction: _mean_cache('mask') solves the training system with the missing "
+       "rows AND columns masked out against (y - m) at the observed positions and stores NaN elsewhere, exact_predictive_mean under 'mask' is m* + the sum over "
+       "OBSERVED columns of K*x times the cache (mask re-derived from the cache), under 'fill' m* + the sum over the non-missing columns. Bounded tier (not counted): every NaN pattern on n = 4 (quick) / 5 "
        "(thorough) single-output exact GPs, batched targets, 3 x 2 multitask interleaved and non-interleaved, both policies in both orders on the "
        "same model: posterior mean / covariance vs a model trained on the observed subset, n*MLL(mask) = n_obs*MLL(deleted), likelihood terms, finiteness.",
   design_ref="DESIGN.md section 5, C16",
   note="'rescaled by the count of observed values' is read as n * MLL(mask) == n_obs * MLL(deleted data) (the code divides by n). NaN poisoning of "
-       "arithmetic is not modelled in the proof tier ('no NaN in any output' is bounded-tier only). The prediction-strategy code (_mean_cache, "
-       "exact_predictive_mean / covar) is covered by the bounded tier only; a known finding (posterior covariance ignores the policy) is listed in "
+       "arithmetic is not modelled in the proof tier ('no NaN in any output' is bounded-tier only). The fill branch of _mean_cache and the predictive "
+       "covariance are covered by the bounded tier only; a known finding (posterior covariance ignores the policy) is listed in "
        "known_findings.json. Gaussian marginalisation (restriction = sub-mean / sub-covariance) is cited. Masked selections are represented in place "
        "with an uninterpreted count as their visible extent.",
   technique="contract-based deductive verification: AST-extracted real functions, elementwise tensor domain with a NaN flag model and predicate-valued reductions, modular callee contracts, z3 + sympy CAS"),
